@@ -18,9 +18,9 @@ type Mutation struct {
 	File   string // relative to the repository root
 	Old    string
 	New    string
-	Rule   string // rule expected to report
-	Expect string // substring expected in the reported key
-	All    bool   // replace all occurrences (else exactly one must exist)
+	Rule   string      // rule expected to report
+	Expect string      // substring expected in the reported key
+	All    bool        // replace all occurrences (else exactly one must exist)
 	More   [][2]string // further (old, new) edits in the same file, each must occur exactly once
 	Clean  bool        // the variant is a behaviour-preserving edit: the check must stay silent (exit 0)
 }
